@@ -13,7 +13,7 @@ CHECKS = {
 }
 CHECKS.update({
  "C04": ("model_checking", "E1", "explicit-state model checking (stateright) with a fault budget of one placed at every reachable state: EOF, reset, garbage frame (frame and byte level), write error / partial write at every byte of a request / pending write, unbind by another handle, dropping every handle; oracle at terminal states: no client future pending, driver returned when the connection is over, transport shut down or dropped after unbind/last drop, delivered responses still returned, items seen are a prefix in order", "3 C04", E1_NOTE + "; fairness: the server closes its side after an UnbindRequest"),
- "C05": ("model_checking", "E1+E2", "explicit-state model checking (stateright) of the real allocator: every allocation from 7x2^7 preset (counter, in-use) states around the 2^31-1 wrap-around window and at every ID-codec boundary is compared with the reference cyclic successor; wire IDs decoded by the independent decoder must be in range and distinct among outstanding operations in all interleavings of starts, completions, timeouts and abandons", "3 C05", E1_NOTE),
+ "C05": ("model_checking", "E1+E2", "explicit-state model checking (stateright) of the real allocator: every allocation from 7x2^7 preset (counter, in-use) states around the 2^31-1 wrap-around window and at every ID-codec boundary is compared with the reference cyclic successor; wire IDs decoded by the independent decoder must be in range and distinct among outstanding operations in all interleavings of starts, completions, timeouts and abandons; plus loom exploration (shadow mutex, preemption bound 3 quick / unbounded thorough) of OS-thread interleavings of allocations with each other and with the driver releasing an ID, incl. at the wrap-around", "3 C05", E1_NOTE + "; loom 0.7.2; tokio channels are atomic between loom switch points"),
  "C10": ("model_checking", "E1", "explicit-state model checking (stateright): a stream client with a free call plan (any sequence of next/finish) against every server item sequence up to the bound (entries, references, intermediates, with per-item controls) x result codes x direct/EntriesOnly/search(); a reference state machine predicts every return value and state()", "3 C10", E1_NOTE),
  "C12": ("model_checking", "E1", "explicit-state model checking (stateright) with a virtual clock: timed single ops, timed+untimed mixes, timed streams and search(); Tick interleaved with server answers and polls in every order; oracle: no timeout before the deadline, no pending un-woken call at/after it, a routed response wins, late replies are seen by nobody, later operations complete, nothing stays reserved", "3 C12", E1_NOTE),
  "C16": ("model_checking", "E1", "explicit-state model checking (stateright) of the PagedResults adapter against a paging server model: result-set sizes 0..5 x page sizes 1..3 x cookie styles x accompanying controls/options/timeout x [Paged] / [EntriesOnly, Paged], plus free call plans; oracle on every request the server receives (one paging control, size, cookie echo, unchanged base/scope/filter/attrs/options/other controls, nothing after the empty cookie) and on every value the client gets", "3 C16", E1_NOTE),
